@@ -1,5 +1,7 @@
 import TongoProofs.Lemmas.TlbSpec
 import TongoProofs.C03
+import TongoProofs.Lemmas.TlbBitsRefine
+import TongoProofs.Lemmas.HashmapSound
 import TongoGen.TlbTypes
 /-! # C04 — TL-B encodings are bit-exact with the TON schemas
 
@@ -16,7 +18,49 @@ encoder and decoder. -/
 namespace Tongo.Tlb.C04
 open Tongo Tongo.Tlb Tongo.Tlb.Spec Tongo.Bits
 
-/-! ## Primitive layer: all widths, all values -/
+/-! ## Primitive layer: all widths, all values
+
+The statements are about the IDEAL-level writers of `TongoModel/Tlb/Basic.lean` (a cell under construction is a list
+of bits) against an independent arithmetic reading of the bits (`bitsToNat (…) = v % 2^n`, two's complement
+`bitsToInt (…) = v`, minimality of the VarUInteger length). That the ideal writer is what Go's byte-level code does
+(the shift loop of `WriteUint`, the sign handling of `WriteInt`, the byte buffer) is C06's refinement composed with
+`C03.builder_refines_bitstring`: `*_on_bitstring` below state the two primitive facts on the byte-level model. -/
+
+/-- **writeUint_on_bitstring**: on the byte-level model of `boc.BitString` (Go's loop `for i := bitLen-1; i >= 0; i--
+{ WriteBit(val>>i & 1) }`), starting from any buffer that holds the bits of `b` with the cell capacity, `WriteUint`
+succeeds exactly when the ideal writer does, and then the buffer holds `b.bits ++ natToBits n v`, whose value is
+`v % 2^n` -/
+theorem writeUint_on_bitstring (v n : Nat) (hv : v < 2 ^ 64) (bs : BitString) (b b' : Builder)
+    (hinv : BitString.Inv bs) (habs : bs.abs = b.bits) (hcap : bs.cap = cellBits)
+    (h : b.writeUint v n = .ok b') :
+    ((Op.writeUint v n).run bs).1 = .ok .unit ∧ ((Op.writeUint v n).run bs).2.abs = b.bits ++ natToBits n v ∧
+      bitsToNat (natToBits n v) = v % 2 ^ n := by
+  have := builder_on_bitstring (writeUint_refines v n hv) (by simpa [Op.WF] using hv) bs b hinv habs hcap
+  simp only [h] at this
+  have hb := Builder.writeBits_ok (show b.writeBits (natToBits n v) = .ok b' by
+    unfold Builder.writeUint at h; rwa [Nat.mod_eq_of_lt hv] at h)
+  refine ⟨this.1, ?_, bitsToNat_natToBits n v⟩
+  rw [this.2.1, hb]
+  simp [Builder.app]
+
+/-- **writeInt_on_bitstring**: the same for `WriteInt` (sign bit + magnitude in the code), every width 1..64 and
+every representable int64: the buffer receives the two's complement bits `intToBits n v`, whose value is `v` -/
+theorem writeInt_on_bitstring (v : Int) (n : Nat) (h1 : 1 ≤ n) (hn : n ≤ 64)
+    (lo : -(2 ^ (n - 1) : Int) ≤ v) (hi : v < (2 ^ (n - 1) : Int)) (bs : BitString) (b b' : Builder)
+    (hinv : BitString.Inv bs) (habs : bs.abs = b.bits) (hcap : bs.cap = cellBits)
+    (h : b.writeInt v n = .ok b') :
+    ((Op.writeInt v n).run bs).1 = .ok .unit ∧ ((Op.writeInt v n).run bs).2.abs = b.bits ++ intToBits n v ∧
+      bitsToInt (intToBits n v) = v := by
+  have h63 : (2 : Int) ^ (n - 1) ≤ 2 ^ 63 := by
+    have : (2 : Nat) ^ (n - 1) ≤ 2 ^ 63 := Nat.pow_le_pow_right (by omega) (by omega)
+    exact_mod_cast this
+  have hwf : (Op.writeInt v n).WF := ⟨by omega, by omega, hn⟩
+  have := builder_on_bitstring (writeInt_refines v n hn) hwf bs b hinv habs hcap
+  simp only [h] at this
+  have hb := Spec.writeInt_spec b b' v n h1 hn lo hi h
+  refine ⟨this.1, ?_, bitsToInt_intToBits n v h1 lo hi⟩
+  rw [this.2.1, hb]
+  simp [Builder.app]
 
 /-- **writeUint_spec**: `n` bits, most significant first, of the value mod 2^n — every width 0..64 -/
 theorem writeUint_spec (b b' : Builder) (v n : Nat) (hn : n ≤ 64) (h : b.writeUint v n = .ok b') :
@@ -269,11 +313,117 @@ theorem ext_message_layout (wc : Int) (addr : List UInt8) (body : Cell) (init : 
       b'.toCell = Cell.mk 0 0 c.1 c.2 :=
   impl_cell_eq_spec _ _ _ impl_eq_spec_Message fuel _ hd b' he
 
-/-- **reencode_real** (from C03 `reencode_hash_partial`): for the listed structures a cell produced by the encoder
-decodes and re-encodes to the same cell, hence the same hash. For cells that come from the chain the statement is
-checked, not proved: every transaction and message of the test blocks is re-encoded by the Go code and the hashes
-compared (`go.redec`); the records whose source encoding is not the one tongo writes are counted and listed. -/
-theorem reencode_real (H : List UInt8 → List UInt8) (fuel : Nat) (v : Val)
+/-! ## The dictionary part of the schema side
+
+`specDict` (the chunk `block.tlb` prescribes for a `HashmapE n X`) calls C05's `Hashmap.marshal` — the same function
+the implementation model uses — on the values as the SCHEMA serialises them. That this function is the schema and not
+merely "what the code does" is C05's content; `specDict_is_hashmap_tree` restates the schema side declaratively: the
+root it produces is the cell tree (`HTree.toCell`: hm_edge with its label, hmn_leaf value / hmn_fork left:^ right:^) of
+a VALID `Hashmap n X` (`HTree.Valid`: every label within the remaining key length, a leaf exactly where the key is
+exhausted) whose MEANING is the given entries in ascending key order — with no reference to the encoder's algorithm. -/
+
+/-- **specDict_is_hashmap_tree** -/
+theorem specDict_is_hashmap_tree (n : Nat) (kf vf : Val → Option Chunk) (v : Val) (c : Chunk)
+    (h : specDict n kf vf v = some c) (ks vs : List Val) (hp : dictParts v = some (ks, vs))
+    (hv : ∀ x ∈ vs, (vf x).isSome = true) (hlen : ks.length = vs.length) :
+    (ks = [] ∧ c = ([false], [])) ∨
+    ∃ (kbits : List Hashmap.Key) (kvs : List (Hashmap.Key × Val)) (t : Hashmap.HTree Val),
+      mapMOpt (fun kv => keyBits n (kf kv)) ks = some kbits ∧ zipKV kbits vs = some kvs ∧
+      t.Valid n ∧ t.meaning = Hashmap.sortKV kvs ∧ Hashmap.SortedKV t.meaning ∧
+      c = ([true], [t.toCell (fun x => (vf x).getD ([], [])) n]) := by
+  unfold specDict at h
+  rw [hp] at h
+  simp only at h
+  by_cases hemp : ks.isEmpty = true
+  · rw [if_pos hemp] at h
+    exact Or.inl ⟨by simpa using hemp, (Option.some.inj h).symm⟩
+  · rw [if_neg hemp] at h
+    right
+    cases hk : mapMOpt (fun kv => keyBits n (kf kv)) ks with
+    | none => rw [hk] at h; cases h
+    | some kbits =>
+    rw [hk] at h
+    simp only at h
+    cases hz : zipKV kbits vs with
+    | none => rw [hz] at h; cases h
+    | some kvs =>
+    rw [hz] at h
+    simp only at h
+    cases hm : Hashmap.marshal (specCodec vf) n kvs with
+    | err e => rw [hm] at h; cases h
+    | panic e => rw [hm] at h; cases h
+    | ok root =>
+    rw [hm] at h
+    simp only [Option.some.injEq] at h
+    -- widths of the keys: `keyBits` checks them
+    have hkw : ∀ kb ∈ kbits, kb.length = n := by
+      clear hm hz h hp hv hlen hemp
+      induction ks generalizing kbits with
+      | nil => simp only [mapMOpt, Option.some.injEq] at hk; subst hk; simp
+      | cons a as ih =>
+        simp only [mapMOpt] at hk
+        cases h1 : keyBits n (kf a) with
+        | none => simp [h1] at hk
+        | some b =>
+          cases h2 : mapMOpt (fun kv => keyBits n (kf kv)) as with
+          | none => simp [h1, h2] at hk
+          | some bs =>
+            simp only [h1, h2, Option.some.injEq] at hk
+            subst hk
+            intro kb hkb
+            rcases List.mem_cons.mp hkb with rfl | hkb
+            · unfold keyBits at h1
+              split at h1
+              · split at h1
+                · rename_i hc; cases h1; exact hc.1
+                · cases h1
+              · cases h1
+            · exact ih bs h2 kb hkb
+    have hkl : kbits.length = vs.length := by
+      have : kbits.length = ks.length := by
+        clear hm hz h hp hv hlen hemp hkw
+        induction ks generalizing kbits with
+        | nil => simp only [mapMOpt, Option.some.injEq] at hk; subst hk; rfl
+        | cons a as ih =>
+          simp only [mapMOpt] at hk
+          cases h1 : keyBits n (kf a) with
+          | none => simp [h1] at hk
+          | some b =>
+            cases h2 : mapMOpt (fun kv => keyBits n (kf kv)) as with
+            | none => simp [h1, h2] at hk
+            | some bs =>
+              simp only [h1, h2, Option.some.injEq] at hk
+              subst hk
+              simp [ih bs h2]
+      omega
+    obtain ⟨hz1, hz2⟩ := zipKV_spec kbits vs kvs hkl hz
+    have hw : ∀ kv ∈ kvs, kv.1.length = n := fun kv hkv => hkw kv.1 (by rw [← hz1]; exact List.mem_map_of_mem hkv)
+    have hne : kvs ≠ [] := by
+      intro h0; subst h0
+      simp only [List.map_nil] at hz1
+      have : ks.length = 0 := by rw [hlen, ← hkl, ← hz1]; rfl
+      exact hemp (by simpa using List.eq_nil_of_length_eq_zero this)
+    have hemp2 : kvs.isEmpty = false := by cases kvs <;> simp_all
+    simp only [Hashmap.marshal, hemp2, Bool.false_eq_true, if_false, Hashmap.maxKeyLen_eq n _ hne hw] at hm
+    have hp2 := Hashmap.sortKV_perm kvs
+    have hws : ∀ kv ∈ Hashmap.sortKV kvs, kv.1.length = n := fun kv hkv => hw kv (hp2.mem_iff.mp hkv)
+    have hs := Hashmap.encodeMap_ok_strict (specCodec vf) (n + 1) n _ root hws (Hashmap.sortKV_weak n _ hw) hm
+    obtain ⟨t, htv, htm, htc⟩ := Hashmap.encodeMap_ok_tree (specCodec vf) (fun x => (vf x).getD ([], [])) (n + 1) n _
+      root hws hs (by
+        intro kv hkv
+        have hmem : kv.2 ∈ vs := by rw [← hz2]; exact List.mem_map_of_mem (hp2.mem_iff.mp hkv)
+        have := hv kv.2 hmem
+        simp only [specCodec]
+        cases hvf : vf kv.2 with
+        | none => rw [hvf] at this; cases this
+        | some c' => simp) hm
+    refine ⟨kbits, kvs, t, rfl, hz, htv, htm, by rw [htm]; exact hs, ?_⟩
+    rw [← h, htc]
+
+/-- **reencode_own_output_message** (formerly `reencode_real`; from C03 `reencode_own_output`): a cell produced BY THE
+ENCODER decodes and re-encodes to the same cell. It says nothing about cells that come from the chain: that is
+`reencode_chain_cell`. -/
+theorem reencode_own_output_message (H : List UInt8 → List UInt8) (fuel : Nat) (v : Val)
     (hd : inDom TongoGen.TlbTypes.env fuel TongoGen.TlbTypes.desc_tlb_Message v = true) (b1 : Builder)
     (he : encode TongoGen.TlbTypes.env fuel TongoGen.TlbTypes.desc_tlb_Message v Builder.empty = .ok b1)
     (v2 : Val) (rest : Slice)
@@ -281,8 +431,24 @@ theorem reencode_real (H : List UInt8 → List UInt8) (fuel : Nat) (v : Val)
       = .ok (v2, rest)) (b2 : Builder)
     (he2 : encode TongoGen.TlbTypes.env fuel TongoGen.TlbTypes.desc_tlb_Message v2 Builder.empty = .ok b2) :
     Cell.reprHash H b2.toCell = Cell.reprHash H b1.toCell :=
-  (C03.reencode_hash_partial H _ C03.generated_env_wf _ TongoGen.TlbTypes.wf_tlb_Message fuel v hd b1 he v2 rest
+  (C03.reencode_own_output H _ C03.generated_env_wf _ TongoGen.TlbTypes.wf_tlb_Message fuel v hd b1 he v2 rest
     hdec b2 he2).2
+
+/-- **reencode_chain_cell** — the clause "structures decoded from real chain data and encoded again reproduce the
+original cell hash wherever the encoding is unique", with the uniqueness condition made explicit and decidable: ANY
+cell (from the chain, from another implementation) that satisfies `canonicalCell` — ordinary cells, minimal
+`VarUInteger` / `Grams` length prefixes, dictionary labels in TON's shortest form, children entirely consumed — and
+that the regenerated descriptor decodes is rebuilt by the encoder bit for bit and reference for reference. For every
+regenerated descriptor (Message, StateInit, Transaction, Account, CurrencyCollection: `C03.reencode_tlb_*`). Where the
+encoding is NOT unique the hash changes: `C03.CanonTest.noncanonical_cell_witnesses`. On every run the predicate is
+evaluated on the real transactions and messages of the test blocks (op `tlb.canon`: a canonical cell must be reproduced
+by the Go code; `tlb.canoninfo`: how many are canonical). -/
+theorem reencode_chain_cell (H : List UInt8 → List UInt8) (T : Ty) (fuel : Nat) (c : Cell)
+    (hc : canonicalCell TongoGen.TlbTypes.env fuel T c = true) (v : Val) (rest : Slice) (b' : Builder)
+    (hd : decode TongoGen.TlbTypes.env fuel T (Slice.ofCell c) = .ok (v, rest))
+    (he : encode TongoGen.TlbTypes.env fuel T v Builder.empty = .ok b') :
+    b'.toCell = c ∧ Cell.reprHash H b'.toCell = Cell.reprHash H c :=
+  C03.reencode_canonical_cell H _ T fuel c hc v rest b' hd he
 
 /-! ## Non-vacuity (TEST on literals): the spec produces the well-known encodings -/
 set_option maxRecDepth 20000 in
